@@ -511,7 +511,7 @@ class StmtMixin:
             nwrites = len(s1.ghost.get('$writes', []))
             for s2, o2 in self.run(n.body, s1):
                 if spec.fresh_only:
-                    for (wf_, wr_, _pc) in s2.ghost.get('$writes', [])[nwrites:]:
+                    for (wf_, wr_, _pc, _wv) in s2.ghost.get('$writes', [])[nwrites:]:
                         if wf_ in spec.havoc and not self._is_alloc_term(z3.simplify(wr_)):
                             raise Unsupported('loop #%d of %s writes a pre-existing object (declared fresh_only)' % (ordinal, st.fn))
                 if o2 is None or o2[0] == 'continue':
